@@ -85,7 +85,7 @@ fn one(rep: &mut Reporter, seed: u64) {
             let rid = repos[k].rid;
             let had_before = handles[q].storage.contains(&rid).unwrap_or(false);
             let _ = handles[q].handle.seed(rid, Scope::All);
-            let result = handles[q].handle.fetch(rid, server.id, std::time::Duration::from_secs(6));
+            let result = handles[q].handle.fetch(rid, server.id, std::time::Duration::from_secs(12));
             let success = matches!(&result, Ok(r) if r.is_success());
             let has_after = handles[q].storage.contains(&rid).unwrap_or(false);
             let seeded = match repos[k].policy { 0 => true, 1 => false, _ => default_allow };
@@ -140,7 +140,7 @@ pub fn run(args: &Args) {
         rep.finish();
         return;
     }
-    for k in 0..args.budget(64, 3_200) {
+    for k in 0..args.budget(64, 640) {
         one(&mut rep, args.case_seed(k));
     }
     rep.finish();
